@@ -72,35 +72,28 @@ def closed_rules(ck, C):
     for cb in closed_cb:
         again = cl.find_path([cb.to], [tr[0].bb])
         ck.verdict(again is None, C, "T5-loop-exit", cl, "no-drain-after-Closed", "after Closed the drain loop is left without another try_recv (nothing is delivered after Closed, Closed is delivered once)", "the drain loop continues after Event::Closed: Closed can be delivered again or followed by messages", site=cl.where(cb.bb))
-        fl = [i for i, j, st in cl.statements() if st["s"] == "assign" and st["rv"]["r"] == "use" and st["rv"]["o"].get("k", {}).get("v") == 1 and st["pl"]["p"] and st["pl"]["p"][-1] == "*"]
-        named = [n for n, (loc, aps, _) in caps.items() if loc is not None and f.types[pe.local_ty(loc)]["s"] == "bool"]
-        set_after = [i for i in fl if i in cl.reachable([cb.to])]
+        cells = common.ClosureCells(pe, cl)
+        set_after = [i for i, c in cells.set_stores() if i in cl.reachable([cb.to])]
         bad = T.t2_all_exits(cl, [cb.to], set_after) if set_after else [0]
         ck.verdict(bad is None, C, "T2-all-exits", cl, "Closed=>disconnected-flag", "the 'disconnected' flag is set on every path after Closed", "Closed can be delivered without the source remembering it (it would not remove itself)", site=cl.where(cb.bb))
     # parent: flag => Remove
     rets = T.ok_returns(pe)
     rm = [i for i, v in rets if v == {("sources::PostAction", "Remove")}]
-    # which parent flag is set after Closed? the one whose store follows the Closed callback
-    disc_local = None
-    for n, (loc, aps, _) in caps.items():
-        if loc is None:
-            continue
-        for i, j, st in cl.statements():
-            if st["s"] == "assign" and T.path_has(cl, st["pl"], "." + n) and st["rv"]["r"] == "use" and st["rv"]["o"].get("k", {}).get("v") == 1:
-                if any(i in cl.reachable([cb.to]) for cb in closed_cb):
-                    disc_local = loc
+    # which cell is set after Closed? the one whose store follows the Closed callback
+    cells = common.ClosureCells(pe, cl)
+    disc_cells = {c for i, c in cells.set_stores() if any(i in cl.reachable([cb.to]) for cb in closed_cb)}
     ok = False
-    if disc_local is not None and rm:
-        for sw, blk in enumerate(pe.blocks):
-            if blk["term"]["t"] == "switch" and disc_local in T.copy_chain_locals(pe, blk["term"]["on"]):
-                tr_e = [(sw, t) for t, lab in pe.succ_edges(sw) if t not in [x for v, x in blk["term"]["targets"] if v == 0]]
-                others = [i for i, v in rets if i not in rm]
-                fa_e = [(sw, t) for t, lab in pe.succ_edges(sw) if t in [x for v, x in blk["term"]["targets"] if v == 0]]
-                ok_e2, _, _ = T.result_split(pe, inner[0].bb)
-                starts2 = [x for _, x in ok_e2] or [inner[0].to]
-                # with the flag set (false edges of its test removed) no successful return other than Remove is reachable
-                if pe.find_path(starts2, others, removed_edges=fa_e) is None and all(pe.find_path([t for _, t in tr_e], [i]) for i in rm):
-                    ok = True
+    if disc_cells and rm:
+        for cell in disc_cells:
+            yes, no = cells.set_edges(cell)
+            if not yes:
+                continue
+            others = [i for i, v in rets if i not in rm]
+            ok_e2, _, _ = T.result_split(pe, inner[0].bb)
+            starts2 = [x for _, x in ok_e2] or [inner[0].to]
+            # with the flag set (the 'not set' edges of its test removed) no successful return other than Remove is reachable
+            if pe.find_path(starts2, others, removed_edges=no) is None and all(pe.find_path([t for _, t in yes], [i]) for i in rm):
+                ok = True
     ck.verdict(ok, C, "T4-guarded-by", pe, "disconnected=>Remove", "once Closed was delivered the source returns PostAction::Remove (it never keeps the loop spinning on a dead channel)", "after Closed the channel source does not return Remove: it stays registered with a permanently readable eventfd / delivers Closed again", site=pe.where())
     return cl
 
